@@ -422,7 +422,7 @@ func init() {
 	// ------------------------------------------------------------------------------- xrand
 	const xr = "xmath/xrand"
 	sv := map[string]string{"s.i": "i", "s.k": "k", "s.first": "first", "j": "j",
-		"math.IsInf(skip,0)||math.IsNaN(skip)": "skipBad", "math.MaxInt": "maxInt", "int(skip)": "skip", "s.r.Intn(s.k)": "rnd"}
+		"math.IsInf(skip,0)||math.IsNaN(skip)||skip>=float64(math.MaxInt-s.i)": "skipBad", "math.MaxInt": "maxInt", "int(skip)": "skip", "s.r.Intn(s.k)": "rnd"}
 	sp := cat(I("i", "k"), B("first"))
 	register(
 		ex(xr, "sampler.Next", "sampFill", "if[0].cond", "Bool", sp, sv),
